@@ -133,13 +133,15 @@ def computeAliveVars (phys : VarSet) (blocks : List (Term Blk)) : AliveMap :=
   aliveFix phys blocks ((subVarCount blocks + phys.length + 1) * (blocks.length + 1) + 2)
     (blocks.map fun b => (b.tid, []))
 
+/-- `Def::Assign { var, .. } if !alive_vars.contains(var) => ()` is the only def that is dropped -/
+def keepDef (alive : VarSet) : Def → Bool
+  | .Assign v _ => decide (v ∈ alive)
+  | _ => true
+
 /-- `remove_dead_var_assignments_of_block`: walk the defs backwards, drop assignments to dead variables -/
 def removeDeadDefs (aliveEnd : VarSet) (defs : List (Term Def)) : List (Term Def) × VarSet :=
   defs.foldr (fun d (acc : List (Term Def) × VarSet) =>
-    let keep := match d.term with
-      | .Assign v _ => decide (v ∈ acc.2)
-      | _ => true
-    (if keep then d :: acc.1 else acc.1, updateAliveByDef acc.2 d.term)) ([], aliveEnd)
+    (if keepDef acc.2 d.term then d :: acc.1 else acc.1, updateAliveByDef acc.2 d.term)) ([], aliveEnd)
 
 def removeDeadBlock (m : AliveMap) (b : Term Blk) : Term Blk :=
   { b with term := { b.term with defs := (removeDeadDefs (m.get b.tid) b.term.defs).1 } }
